@@ -147,6 +147,25 @@ def run_case(S, peer_edge):
   bad = check_doc(doc, S, peer_edge, X2, 'after-edit')
   if bad:
     return True, bad
+  # break the references column by column (ModifyColumn c_i -> '$x'), checking after each step:
+  # cells whose cycle just disappeared must get their normal value, the others keep their error
+  S2 = list(S)
+  for i in range(len(S)):
+    if not S2[i]:
+      continue
+    S2[i] = ()
+    pe = peer_edge if (peer_edge and S2[peer_edge[0]]) else None
+    g, e = doc.try_apply([["ModifyColumn", "G", "c%d" % i, {"formula": "$x"}]])
+    if e is not None:
+      return True, ('C18/recalculation-raised/after-formula-change/%s' % type(e).__name__,
+                    "ModifyColumn c%d -> '$x' raised %s" % (i, H.exc_text(e)))
+    bad = check_doc(doc, tuple(S2), pe, X2, 'after-formula-change')
+    if bad:
+      return True, (bad[0], bad[1] + " (after setting c%s to '$x' in turn, now at c%d)" % (
+          [j for j in range(i + 1) if S[j]], i))
+  doc = H.Doc.load(base_snap())
+  doc.try_apply(bundle_for(S, peer_edge))
+  doc.try_apply([["UpdateRecord", "G", 1, {"x": X2[1]}]])
   # reload without stored results and recalculate everything from scratch
   snap = {tid: json.dumps(doc.fetch(tid, formulas=tid.startswith('_grist_'))) for tid in doc.table_ids()}
   try:
@@ -191,8 +210,9 @@ def run(tier, report):
   E = Enum(report, rule='every dependency graph over k=%d formula columns of one table (each column '
                         'references any subset of the columns: %d graphs), x {all references within '
                         'the row, first reference through $peer}; 2 rows; oracle from graph theory on '
-                        'the enumerated graph after the initial calculation, after editing x, and '
-                        'after a from-scratch reload; non-trivial = the graph has a cycle' % (k, total))
+                        'the enumerated graph after the initial calculation, after editing x, after '
+                        'removing the references column by column (ModifyColumn), and after a '
+                        'from-scratch reload; non-trivial = the graph has a cycle' % (k, total))
   for part in pmap(worker, jobs):
     E.merge(part)
   E.finish(exhaustive=True)
